@@ -74,6 +74,17 @@ PROPS = {
         rules=["NoPanic", "EnvelopeErr", "ParseEqRef", "MustAccept", "BuildOk", "PlainCanonical"],
         shards=12,
     ),
+    "C11": dict(
+        gen=[dict(module="Gen_RData", cfg="Gen_RData.cfg", out="rdata_cases.ndjson"),
+             dict(module="Gen_Framing", cfg="Gen_Framing.cfg", out="framing_cases.ndjson"),
+             dict(module="Gen_Edns", cfg="Gen_Edns.cfg", out="edns_cases.ndjson"),
+             dict(module="Gen_Inspect", cfg="Gen_Inspect.cfg", out="inspect_cases.ndjson"),
+             dict(module="Gen_Compress", cfg="Gen_Compress1.cfg", out="layouts1.ndjson"),
+             dict(module="Gen_Compress", cfg="Gen_Compress2.cfg", out="layouts2.ndjson")],
+        topic="reparse",
+        rules=["NoPanic", "ReparseEqual", "HdrReparse"],
+        shards=14,
+    ),
     "C12": dict(
         gen=[dict(module="Gen_Inspect", cfg="Gen_Inspect.cfg", out="inspect_cases.ndjson"),
              dict(module="Gen_RData", cfg="Gen_RData.cfg", out="rdata_cases.ndjson"),
@@ -244,5 +255,15 @@ TEXT = {
               "the reference encoder / decoder on the same packets (PlainCanonical, CompDecodes)."),
         note=_TRUSTED,
         technique="recorded writer outcomes validated by the TLA+ trace spec against the Ref encoder/decoder",
+    ),
+    "C11": dict(
+        text=("Session parse -> build plain -> build compressed -> parse both, on every input the parser accepts from: "
+              "reference encodings of all record types, framing variants, EDNS messages, arbitrary-byte names/strings, "
+              "ALL admissible compression layouts of two small messages (enumerated by TLC's nondeterministic encoder, "
+              "Gen_Compress, which also proves on the model that every layout decodes to the intended packet), +-1 "
+              "perturbations and random mutations that are still accepted, and all 65536 header words. TLC requires "
+              "both builds to succeed and both re-parses to equal the first parse in every observable field."),
+        note=_TRUSTED,
+        technique="TLC-enumerated foreign encodings replayed; parse/build/parse sessions validated by the TLA+ trace spec",
     ),
 }
